@@ -13,7 +13,7 @@ T2 node sizing: assignment of a (longer or shorter) vector resizes to the declar
    before indexing; cleaning resizes to the declared size.
 """
 import re
-from ..cfg import Facts, kids, strip, walk, cv, render, call_args, call_object, switch_sections
+from ..cfg import xrender, norm_facts, expand_locals, Facts, kids, strip, walk, cv, render, call_args, call_object, switch_sections
 from ..cfg import short_loc as _short_loc
 from ..facts import export, export_many, AnalysisBroken
 
@@ -371,10 +371,12 @@ def run(rep, ctx):
     e1 = rep.rule("C04.E1", "PATH", "when an entry is merged into the previous one, source and target ranges are extended together (copy link) or exactly one side under equality of the other (many-to-many)", floor=3)
     MUT = ("ExtendBy", "TryExtendBy")
 
-    def side_of(c):
-        o = render(call_object(c)).replace(" ", "")
+    def side_of(c, f=None):
+        o = (xrender(f, call_object(c)) if f is not None else render(call_object(c))).replace(" ", "")
         return "first" if o.endswith(".first") else "second" if o.endswith(".second") else None
     for f in all_of("mp::pre::CopyLink::AddEntry"):
+        side_of_ = side_of
+        side_of = lambda c, f_=f: side_of_(c, f_)
         mut = {"first": [], "second": []}
         for c in f.walk():
             if c["k"] == "CXXMemberCallExpr" and (c.get("callee") or "").split("::")[-1] in MUT and side_of(c):
@@ -396,15 +398,13 @@ def run(rep, ctx):
         # both extensions only when both sides are extendable
         for m in mut["first"] + mut["second"]:
             if (m.get("callee") or "").endswith("::ExtendBy"):
-                fa = [(render(f.nodes[cid]).replace(" ", ""), pol) for cid, pol in branch_facts(f, m)]
-                flat = []
-                for t, p_ in fa:
-                    flat.append((t, p_))
-                need = [x for x in flat if "ExtendableBy" in x[0]]
-                txt = " ".join(t for t, _ in fa)
-                if not ("first.ExtendableBy(be.first)" in txt and "second.ExtendableBy(be.second)" in txt):
+                fa = norm_facts(f, m, loop_conditions=False)
+                g1_ = any(t.endswith("first.ExtendableBy(be.first)") and p_ for t, p_ in fa)
+                g2_ = any(t.endswith("second.ExtendableBy(be.second)") and p_ for t, p_ in fa)
+                if not (g1_ and g2_):
                     ok = False
                     why = "ExtendBy is not guarded by the extendability of both ranges"
+        side_of = side_of_
         e1.check(ok, "copy-link|AddEntry", short_loc(f.loc), "CopyLink::AddEntry extends both ranges of the last entry or neither",
                  "CopyLink::AddEntry: %s: the entry then maps k+1 source items onto k targets and every later value of that entry lands one item off" % why)
     for f in all_of("mp::pre::Many2ManyLink::AddEntry"):
